@@ -932,6 +932,46 @@ def rule_grammar_guards(col, facts):
         col.check(R, "%s:several-leading-zeros" % last_seg(fname), ok,
                   "no Error::InvalidLeadingZeros site is guarded by `more than one zero was skipped`: under no_integer_leading_zeros `00`, `000` are accepted as 0", f.loc())
 
+    # (d) the float parser's leading-zeros test is about *digits*: "more than one digit and the first is 0".
+    #     With digit separators the raw integer slice also holds separator bytes, so its length / first byte
+    #     are not that: `0_` (one digit, trailing separator) was rejected.  The count compared with 1 must come
+    #     from current_count(), the first digit from the component iterator.
+    sites = [(bb, sp) for bb, v, sp in error_sites(pn) if v == "InvalidLeadingZeros"]
+    col.check(R, "parse_number:InvalidLeadingZeros:present", bool(sites), "Error::InvalidLeadingZeros is never produced by the float parser", pn.loc())
+
+    def _all_defs(e, depth=0):
+        out = [e]
+        e = strip_casts(e)
+        if e[0] == "var" and depth < 3:
+            for _bb, _j, rv, proj in pn.defs().get(e[1], []):
+                if not proj:
+                    out.extend(_all_defs(rvalue_expr(pn, rv, 1, e[1]), depth + 1))
+        elif e[0] in ("bin",):
+            out.extend(_all_defs(e[2], depth + 1) + _all_defs(e[3], depth + 1))
+        return out
+    for k, (bb, sp) in enumerate(sites):
+        counted = first = False
+        raw = None
+        for _d, e, p in path_conditions(pn, bb):
+            e = strip_casts(e)
+            if e[0] == "bin" and e[1] in ("Gt", "Ge", "Lt", "Le") and strip_casts(e[3])[0] == "k":
+                names = set()
+                for x in _all_defs(e[2]):
+                    names |= {last_seg(c[1]) for c in expr_calls(x)}
+                    if "PtrMetadata" in show(x):
+                        names.add("len")
+                if "current_count" in names and not (names & {"len", "as_slice", "get_unchecked"}):
+                    counted = True
+                elif names & {"len", "as_slice", "get_unchecked"}:
+                    raw = show(e)
+            names = {last_seg(c[1]) for c in expr_calls(e)}
+            if names & {"peek", "first_is", "first_is_cased", "peek_is_cased", "read_if_value_cased"} and "integer_iter" in names:
+                first = True
+            elif "first" in names or "get_unchecked" in names and "eq" in names:
+                raw = raw or show(e)
+        col.check(R, "parse_number:InvalidLeadingZeros#%d:counts-digits" % k, counted and first,
+                  "the leading-zeros error is decided from the raw bytes of the integer component (%s) instead of the digit count (current_count) and the iterator's first digit: digit separators are counted as digits, `0_` / `0_.5` are rejected under no_float_leading_zeros" % (raw or "no digit-count comparison found")[:160], pn.loc(sp))
+
 
 # ---------------------------------------------------------------------------------------------
 def _lower_bound(e, atoms, depth=0):
